@@ -1,7 +1,9 @@
 #!/bin/bash
 # Offline build of the whole Coq development (full .vo build; never -vos).
 set -e
-cd "$(dirname "$0")/coq"
-mkdir -p theories/Generated
+here="$(cd "$(dirname "$0")" && pwd)"
+mkdir -p "$here/coq/theories/Generated"
+PYTHONPATH="/repo:$here/harness" PYTHONDONTWRITEBYTECODE=1 /venv/bin/python "$here/harness/translate/run_all.py"
+cd "$here/coq"
 coq_makefile -f _CoqProject -o Makefile
 timeout 3000 make -j16
